@@ -402,7 +402,11 @@ struct Value {
                 vc.push_back(z % 10);
             }
             j = 0;
-            for (auto it = vc.rbegin(); it != vc.rend(); ++it) {
+            for (auto it = vc.begin(); it != vc.end(); ++it) { // (least significant digit first; walked backwards the digits came out in their original order)
+                if (j > (std::numeric_limits<int64_t>::max() - 9) / 10 || j < (std::numeric_limits<int64_t>::min() + 9) / 10) {
+                    fprintf(stderr, "the reversed integer is out of range\n");
+                    return;
+                }
                 j = (j * 10) + *it;
             }
             int64 = j;
